@@ -51,6 +51,10 @@ package redisemu
 //@ modifies *
 //@ loop 1 invariant len(indexes) == len(all) && allsel(k, 0, len(all), all[k] != nil && dbReady(all[k])) && !held
 //@ loop 2 invariant len(indexes) == len(all) && allsel(k, ri2, len(all), all[k] != nil && dbReady(all[k])) && !held
+// C19: the file a database is written to is named after the index it is registered under (not its position in the collected list)
+//@ loop 1 invariant [C19] paired: allsel(k, 0, len(all), haskey(dss.dbs, indexes[k]) && dss.dbs[indexes[k]] == all[k])
+//@ loop 2 invariant [C19] paired: allsel(k, 0, len(all), haskey(dss.dbs, indexes[k]) && dss.dbs[indexes[k]] == all[k])
+//@ assertafter "err := dsc.save(" [C19] own.file: haskey(dss.dbs, gNameIndex) && dss.dbs[gNameIndex] == ds
 
 //@ func dataStoreSet.dbSize
 //@ prop C16
@@ -96,4 +100,7 @@ package redisemu
 //@ safetyprop none
 //@ requires cs != nil && cs.watches != nil
 //@ modifies map ghost.mutexHeld
-//@ assertbefore "cs.watches[wk] = id" [C10] first.watch.only: !watched
+// C10: the version recorded by the first WATCH of a key stays until EXEC/DISCARD/UNWATCH - also when that version is 0 (the key was missing)
+//@ ensures [C10] first.kept: old(haskey(cs.watches, wk)) ==> cs.watches[wk] == old(cs.watches[wk])
+//@ ensures [C10] recorded: !old(haskey(cs.watches, wk)) ==> cs.watches[wk] == id
+//@ ensures [C10] watched: haskey(cs.watches, wk)
